@@ -11,20 +11,27 @@ an error that the retry policy answers with "retry on the same host": the retry 
 task), when the client gives up on it -- also after its response has been processed, while the retry
 is still queued or (engine S) while the reactor is still inside the response handler --, when a
 connection breaks, when the next executor task runs (and whether the connection it opens is accepted
-or refused) and when the pool is shut down.
+or refused), when the socket of a pool connection stops being writable (`Connection.send_msg` then
+refuses a request with ConnectionBusy and the slot is given back unused) or is writable again, whether
+the next executor task runs between a request's borrow and its send ('req-gap'), and when the pool is
+shut down.
 
 The monitors are independent of the driver's own counters wherever the statement is about what
 happens on the wire: which streams are outstanding on which connection is taken from what the
 *server* received and answered; a request counts as given up once the application has been handed
 an outcome for it (or while its client-side timeout is expiring).
 
-Engine E: `PoolHarness` (events = request / answer / answer with a retried error / timeout /
-connection reset / next task with the connect accepted or refused / shutdown).  Engine S: `sched_run`
+Engine E: `PoolHarness` (events = request / request with the next task run between its borrow and its send /
+answer / answer with a retried error / timeout / connection reset / socket not writable / writable again /
+next task with the connect accepted or refused / shutdown).  Engine S: `sched_run`
 (client, reactor, timer, executor-worker, shutdown and script threads -- a script thread applies a fixed
 list of whole events, the handlers of several driver threads one after the other -- after a staged
 single-threaded prefix, optionally followed by a single-threaded epilogue; scheduling points at every
 line of the pool class; at the end what is outstanding finishes answers first or client timeouts first).
-A hook on the pool's borrow_connection judges what it hands out at the moment it returns.  Both use the same judgements (`PoolWorld.*_findings`); each property passes the list of
+A hook on the pool's borrow_connection judges what it hands out at the moment it returns; a hook on the pool
+connections' get_request_id (called under the connection lock right after in_flight was raised) judges, under
+engine S, that no stream is handed to a thread that was suspended in a condition wait when the pool's
+shutdown() returned.  Both use the same judgements (`PoolWorld.*_findings`); each property passes the list of
 clauses it owns, hits of the other property's clauses are only counted.
 """
 from vt import explore, sched
@@ -35,7 +42,7 @@ from vt.vthreading import WouldBlock
 from vt.reqworld import ScriptedRetryPolicy, Observer, response_body
 
 from cassandra.cluster import ExecutionProfile, EXEC_PROFILE_DEFAULT, NoHostAvailable
-from cassandra.connection import ConnectionException
+from cassandra.connection import ConnectionException, ConnectionBusy
 from cassandra.policies import LoadBalancingPolicy, HostDistance, ConvictionPolicy
 from cassandra.pool import NoConnectionsAvailable, HostConnection, HostConnectionPool
 from cassandra.query import SimpleStatement
@@ -136,6 +143,15 @@ def conn_class(max_in_flight, orphaned_threshold):
             except OSError:
                 self.refused = True          # never opened: the server refused the connect
                 raise
+
+        def get_request_id(self):
+            # (called with the connection lock held, right after in_flight was raised: the moment a stream is handed out)
+            rid = VConnection.get_request_id(self)
+            h = PoolConn.on_stream
+            if h is not None and not self.is_control_connection:
+                h(self, rid)
+            return rid
+    PoolConn.on_stream = None
     return PoolConn
 
 
@@ -159,9 +175,9 @@ class PoolWorld(object):
             self.lbp = PoolLBP()
             prof = ExecutionProfile(load_balancing_policy=self.lbp, retry_policy=self.retry,
                                     request_timeout=p.get('timeout', 1000.0))
+            self.conn_cls = conn_class(p.get('max_in_flight'), p.get('orphaned_threshold'))
             kw = dict(execution_profiles={EXEC_PROFILE_DEFAULT: prof}, protocol_version=self.proto,
-                      contact_points=[CTRL],
-                      connection_class=conn_class(p.get('max_in_flight'), p.get('orphaned_threshold')))
+                      contact_points=[CTRL], connection_class=self.conn_cls)
             if not p.get('convict', True):
                 kw['conviction_policy_factory'] = lambda host: NeverConvict(host)
             self.cluster = self.w.make_cluster(**kw)
@@ -199,9 +215,19 @@ class PoolWorld(object):
             self.skipped = 0             # engine S epilogue events that were not possible
             self.timing_out = None
             self.stuck = None
+            self.n_unwritable = 0        # fault events "the socket of a pool connection stopped being writable"
+            self.n_busy = 0              # requests whose send was refused with ConnectionBusy
+            self.n_gap = 0               # requests between whose borrow and send an executor task ran
+            self.gap = None              # engine E: what happens between the borrow of the request being issued and its send
             self.w.close_hooks.append(self._on_close)
             self._pool_borrow = self.pool.borrow_connection
             self.pool.borrow_connection = self._borrow      # instance attribute: the pool's own code is untouched
+            self.sched = None            # engine S: the scheduler of this execution
+            self.waiting_at_shutdown = {}    # engine S: tid -> name of the threads suspended in a Condition.wait when shutdown() returned
+            self.n_waiters_at_shutdown = 0
+            self._pool_shutdown = self.pool.shutdown
+            self.pool.shutdown = self._shutdown             # (also reached by the driver's own calls of self.shutdown())
+            self.conn_cls.on_stream = self._on_stream
         except BaseException:
             self.close()
             raise
@@ -316,7 +342,39 @@ class PoolWorld(object):
                 self.problems.append(('new-request-on-replaced-connection', 'HostConnection.borrow_connection/closed',
                                       'borrow_connection returned stream %r of connection #%d, which had been replaced by #%d '
                                       'and closed' % (got[1], conn.vid, self.pool._connection.vid)))
+        gap, self.gap = self.gap, None
+        if gap is not None and conn is not None and self.w.tasks:
+            # engine E, event 'req-gap': the next executor task runs to completion on its own thread after this borrower got its
+            # stream and before it sends (on real threads nothing orders the two)
+            self.n_gap += 1
+            self.run_task(0, gap)
+            self.w.deliver_outbox()
         return got
+
+    def _shutdown(self):
+        """Engine S: which threads are suspended in a wait on a condition at the moment shutdown() returns (the flag is up, the
+        waiters have been notified): whatever such a thread decides after it wakes up, it decides on a pool that is already
+        shut down."""
+        self._pool_shutdown()
+        s = self.sched
+        if s is not None and self.pool.is_shutdown:
+            for t in s.threads:
+                if not t.finished and t is not s.current and t.waiting is not None and t.what == 'Condition.wait':
+                    if t.tid not in self.waiting_at_shutdown:
+                        self.waiting_at_shutdown[t.tid] = t.name
+                        self.n_waiters_at_shutdown += 1
+
+    def _on_stream(self, conn, rid):
+        """A stream id of a pool connection is being handed out (engine S): not to a borrower that was waiting for a slot
+        when the pool's shutdown() returned -- its borrow is from a pool that is already shut down and has to fail."""
+        s = self.sched
+        if s is None or not self.waiting_at_shutdown or s.current is None or conn.endpoint.address != POOLHOST:
+            return
+        if s.current.tid in self.waiting_at_shutdown and self.pool.is_shutdown:
+            self.problems.append(('borrow-after-shutdown', type(self.pool).__name__ + '/waiter',
+                                  'thread %s was waiting for a free slot when shutdown() of the pool returned; woken up, it was '
+                                  'handed stream %r of connection #%d (closed: %s, in_flight now %d) instead of failing'
+                                  % (s.current.name, rid, conn.vid, conn.is_closed, conn.in_flight)))
 
     def fresh_usable(self):
         """HostConnection: the pool's current connection if it is a replacement of an overloaded connection
@@ -354,7 +412,24 @@ class PoolWorld(object):
                     self.orphan_hit[vid] = True
 
     # ------------------------------------------------------------------ events
-    def issue(self):
+    def issue(self, gap=None):
+        self.gap = gap
+        try:
+            return self._issue()
+        finally:
+            self.gap = None
+
+    def set_writable(self, vid, flag):
+        """Environment answer at a send: the socket of pool connection #vid is not writable (its send buffer is full, as on a
+        connection that collects timeouts) / is writable again.  `Connection.send_msg` refuses a request with ConnectionBusy
+        while the flag is down; the reactors that implement the flag (libev) clear and set it from their write watcher."""
+        conn = self.w.conns[vid]
+        if not flag:
+            self.n_unwritable += 1
+        with conn.lock:
+            conn._socket_writable = flag
+
+    def _issue(self):
         tag = len(self.reqs)
         self.reqs.append((None, None))   # slot taken before the driver is entered (engine S: clients overlap)
         before = set(c.vid for c in self.replaced_conns())
@@ -368,7 +443,10 @@ class PoolWorld(object):
         if isinstance(f._final_exception, NoHostAvailable):
             # the request could not be sent at all (judged before anything else runs: attaching the observer takes a lock)
             cur = self.fresh_usable()
-            if cur is not None:
+            busy = [e for e in f._final_exception.errors.values() if isinstance(e, ConnectionBusy)]
+            if busy:
+                self.n_busy += 1         # refused by the socket (environment), not by the pool: not judged by this clause
+            if cur is not None and not busy:
                 self.problems.append(('request-refused-beside-fresh-connection', 'HostConnection',
                                       'request q%d was refused (%r) although the overloaded connection had been replaced: the fresh '
                                       'connection #%d is open with %d of %d slots in use'
@@ -593,7 +671,8 @@ class PoolWorld(object):
         for c in self.pool_conns():
             conns.append((c.vid, c.refused, c.in_flight, tuple(sorted(c.orphaned_request_ids)), c.is_closed, c.is_defunct,
                           tuple(sorted(c._requests.keys())), c.orphaned_threshold_reached, tuple(c.request_ids),
-                          c.highest_request_id, c in trash, cur.index(c) if c in cur else -1, c.signaled_error))
+                          c.highest_request_id, c in trash, cur.index(c) if c in cur else -1, c.signaled_error,
+                          getattr(c, '_socket_writable', True)))
         pool = self.pool
         if self.legacy:
             pl = (pool.is_shutdown, pool.open_count, pool._scheduled_for_creation,
@@ -615,12 +694,15 @@ class PoolWorld(object):
         return (tuple(conns), pl, tuple(futs), tuple(tasks), pend, tuple(sorted(self.orphaned)),
                 tuple(sorted(self.orphan_hit)), tuple(sorted(self.req_after_hit)), self.host.is_up,
                 self.session._pools.get(self.host) is pool, self.n_defunct, self.n_fail,
-                self.session.is_shutdown, len(self.w.sched_tasks), bool(self.stuck), self.n_retry, self.n_late_timeout)
+                self.session.is_shutdown, len(self.w.sched_tasks), bool(self.stuck), self.n_retry, self.n_late_timeout,
+                self.n_unwritable, self.n_gap)
 
 
 class PoolHarness(explore.Harness):
     """Engine E harness.  params (besides the PoolWorld ones): prop ('C12'|'C13'), clauses (list of
-    oracle clauses this property judges), n_req, max_defunct, max_fail, max_retry (answers with a
+    oracle clauses this property judges), n_req, max_defunct, max_fail, max_unwritable (fault events "socket of connection
+    #n not writable"; a connection that is not writable may always become writable again), gap (bool: a request may have
+    the next executor task run between its borrow and its send; max_gap such requests per history, default 1), max_retry (answers with a
     retried error, counted from the start of the prefix), shutdown (bool), task_window, prefix (events
     applied in init), drain_orders."""
     name = 'pool'
@@ -646,6 +728,16 @@ class PoolHarness(explore.Harness):
             return evs
         if len(st.reqs) < p.get('n_req', 3) and not st.session.is_shutdown:
             evs.append((('req',), 0))
+            if p.get('gap') and st.n_gap < p.get('max_gap', 1):
+                # the next executor task (one that is queued already, or the one this borrow queues) runs between the
+                # borrow and the send of this request
+                evs.append((('req-gap', 'ok'), 0))
+        for c in st.opened_conns():
+            if not c.is_closed and not c.is_defunct:
+                if not c._socket_writable:
+                    evs.append((('writable', c.vid), 0))
+                elif st.n_unwritable < p.get('max_unwritable', 0):
+                    evs.append((('unwritable', c.vid), 0))
         for i, pnd in enumerate(st.open_pending()):
             evs.append((('resp', i), 0))
             if st.n_retry < p.get('max_retry', 0) and not st.given_up(pnd):
@@ -695,7 +787,11 @@ class PoolHarness(explore.Harness):
             part.count('states_after_a_polling_loop_was_ended_by_the_clock')
         if st.n_late_timeout:
             part.count('states_after_a_timeout_of_an_already_answered_request')
-        if st.closes or st.n_late or st.n_defunct or st.n_fail or st.orphaned or st.n_retry:
+        if st.n_busy:
+            part.count('states_after_a_send_refused_by_an_unwritable_socket')
+        if st.n_gap:
+            part.count('states_after_a_task_ran_between_a_borrow_and_its_send')
+        if st.closes or st.n_late or st.n_defunct or st.n_fail or st.orphaned or st.n_retry or st.n_busy:
             part.mark_nontrivial(repr(st.canon()))
 
 
@@ -705,6 +801,12 @@ def apply_event(st, ev):
     try:
         if kind == 'req':
             st.issue()
+        elif kind == 'req-gap':
+            st.issue(gap=ev[1])
+        elif kind == 'unwritable':
+            st.set_writable(ev[1], False)
+        elif kind == 'writable':
+            st.set_writable(ev[1], True)
         elif kind == 'resp':
             st.respond(ev[1])
         elif kind == 'resp-retry':
@@ -792,7 +894,7 @@ def sched_run(params, prefix, part):
     everything outstanding is answered; one that is not possible then is skipped and counted),
     max_fail (connects the worker's environment may refuse; a data choice charged like a preemption),
     script (thread kind 'script': a list of whole events -- ('req',), ('timeout', k), ('resp', i), ('task', i, mode),
-    ('shutdown',) as in engine E, ('resp-tag', k) = answer request qk, ('resp-mine', j) / ('timeout-mine', j) = answer /
+    ('shutdown',), ('defunct', vid), ('unwritable', vid), ('writable', vid) as in engine E, ('resp-tag', k) = answer request qk, ('resp-mine', j) / ('timeout-mine', j) = answer /
     give up the j-th request this thread issued itself, ('wait-task',) = wait until an executor task is queued; a second
     'script' thread takes its events from script2 -- applied one after the other on one thread: the handlers of other threads, in one
     fixed order, running while a borrower or returner is preempted inside a pool method; an event that is not
@@ -812,6 +914,7 @@ def sched_run(params, prefix, part):
             apply_event(st, tuple(ev))
         cls = type(st.pool).__name__
         s = PoolScheduler(prefix, focus=focus_codes(type(st.pool)), horizon=p.get('horizon', 12000), clock=st.w.clock)
+        st.sched = s
         threads = list(p['threads'])
         orphan_tags = set(p.get('orphan_tags', ()))
         answer_tags = set(p['answer_tags']) if p.get('answer_tags') is not None else None
@@ -930,7 +1033,11 @@ def sched_run(params, prefix, part):
                         st.run_task(ev[1], ev[2])
                     elif kind == 'shutdown':
                         st.pool.shutdown()
-                    elif kind in ('timeout', 'timeout-mine', 'resp-mine', 'resp', 'resp-tag', 'task'):
+                    elif kind == 'defunct' and not st.w.conns[ev[1]].is_closed and not st.w.conns[ev[1]].is_defunct:
+                        st.defunct(ev[1])
+                    elif kind in ('unwritable', 'writable'):
+                        st.set_writable(ev[1], kind == 'writable')
+                    elif kind in ('defunct', 'timeout', 'timeout-mine', 'resp-mine', 'resp', 'resp-tag', 'task'):
                         st.skipped += 1
                         part.count('script_events_not_possible')
                     else:
@@ -1004,6 +1111,8 @@ def sched_run(params, prefix, part):
         report(p, part, data, st.replacement_findings())
         if st.n_late_timeout:
             part.count('executions_with_a_timeout_of_an_already_answered_request')
+        if st.n_waiters_at_shutdown:
+            part.count('executions_with_a_borrower_waiting_for_a_slot_when_shutdown_returned')
         part.outcome((mid, st.outcome()) + (('late-timeouts=%d' % st.n_late_timeout,) if p.get('timer_tags') else ()))
         if any(pt.chosen for pt in s.trace):
             part.mark_nontrivial(repr((p.get('stage'), threads, s.choices())))
